@@ -160,6 +160,10 @@ func c05exec(c *h.Ctx, cs *h.Case) {
 		c05conn(c, cs)
 		return
 	}
+	if len(cs.Ops) > 0 && strings.HasPrefix(cs.Ops[0], "c05 chstart ") {
+		c05chan(c, cs)
+		return
+	}
 	fixMu.Lock() // fix.Prepare is global
 	defer fixMu.Unlock()
 	f := c04get()
@@ -171,7 +175,7 @@ func c05exec(c *h.Ctx, cs *h.Case) {
 	// three instances, or as many as the ops name (class script-many: dozens of instances on one server)
 	nInst := 3
 	for _, op := range cs.Ops {
-		if tk := strings.Fields(op); len(tk) >= 3 && (tk[1] == "accept" || tk[1] == "self" || tk[1] == "late" || tk[1] == "exit" || tk[1] == "close") {
+		if tk := strings.Fields(op); len(tk) >= 3 && (tk[1] == "accept" || tk[1] == "self" || tk[1] == "late" || tk[1] == "exit" || tk[1] == "close" || tk[1] == "rereg") {
 			if i, err := strconv.Atoi(tk[2]); err == nil && i >= nInst && i < 4096 {
 				nInst = i + 1
 			}
@@ -361,6 +365,25 @@ func c05exec(c *h.Ctx, cs *h.Case) {
 				time.Sleep(300 * time.Microsecond)
 			}
 			cs.Impl = append(cs.Impl, state(i))
+		case "rereg":
+			// the instance the node is bound to is registered once more (a service that registers the instance it
+			// hands back from NewProtocol, or calls RegisterProtocolInstance again): refused, and nothing else
+			// happens — in particular the instance keeps its one reader (what follows in the case shows it:
+			// handlers one at a time, in acceptance order)
+			if in.rec == nil {
+				cs.Impl = append(cs.Impl, "no-instance")
+				continue
+			}
+			switch err := f.cl.Overlay(ct.srv).RegisterProtocolInstance(in.rec.Tni.ProtocolInstance()); err {
+			case nil:
+				cs.Impl = append(cs.Impl, "ok")
+			case onet.ErrProtocolRegistered:
+				cs.Impl = append(cs.Impl, "refused")
+			case onet.ErrWrongTreeNodeInstance:
+				cs.Impl = append(cs.Impl, "no-node")
+			default:
+				cs.Impl = append(cs.Impl, "err:other")
+			}
 		case "close":
 			if in.rec == nil {
 				cs.Impl = append(cs.Impl, "no-instance")
@@ -464,6 +487,11 @@ func c05gen(c *h.Ctx, yield func(*h.Case)) {
 	// a hand-over that was looked up before the instance closed and arrives after: dropped by the instance itself
 	yield(&h.Case{Class: "script-corpus", Ops: []string{
 		"c05 accept 0 1", "c05 accept 0 2", "c05 close 0", "c05 late 0 3", "c05 exit 0", "c05 late 0 4", "c05 accept 1 5", "c05 late 1 6", "c05 exit 1", "c05 exit 1"}})
+	// the instance is registered a second (third) time while its handler is blocked and messages are queued behind it
+	yield(&h.Case{Class: "script-corpus", Ops: []string{
+		"c05 accept 0 1", "c05 rereg 0", "c05 accept 0 2", "c05 accept 0 3", "c05 rereg 0", "c05 accept 0 4", "c05 exit 0", "c05 exit 0",
+		"c05 accept 1 5", "c05 rereg 1", "c05 exit 1", "c05 rereg 1", "c05 accept 1 6", "c05 accept 1 7", "c05 accept 1 8", "c05 exit 0", "c05 exit 0",
+		"c05 exit 1", "c05 exit 1", "c05 exit 1", "c05 close 0", "c05 rereg 0", "c05 rereg 2"}})
 	// a handler that stays blocked for a long time (longer than any plausible internal time limit)
 	yield(&h.Case{Class: "script-long-block", Ops: []string{"c05 accept 0 1", "c05 accept 0 2", "c05 accept 1 3", "c05 sleep 10600",
 		"c05 accept 0 4", "c05 exit 1", "c05 exit 0", "c05 exit 0", "c05 exit 0"}})
@@ -536,7 +564,10 @@ func c05gen(c *h.Ctx, yield func(*h.Case)) {
 					}
 				}
 			default:
-				if closed[i] && created[i] {
+				if created[i] && r.Intn(3) == 0 {
+					cs.Ops = append(cs.Ops, fmt.Sprintf("c05 rereg %d", i))
+					c.Count("op=rereg")
+				} else if closed[i] && created[i] {
 					m++
 					cs.Ops = append(cs.Ops, fmt.Sprintf("c05 late %d %d", i, m))
 					c.Count("op=late")
@@ -550,6 +581,7 @@ func c05gen(c *h.Ctx, yield func(*h.Case)) {
 		yield(cs)
 	}
 	c05connGen(c, yield)
+	c05chanGen(c, yield)
 	for n := 0; n < c.Pick(30, 300); n++ {
 		feeders := 1 + r.Intn(8)
 		per := 5 + r.Intn(40)
